@@ -314,12 +314,34 @@ def pad_rule(chk, w, split):
                     src = rules.load_source(g, gp["base"])
                     if src and src[0] == "alloca" and g.param_index_of_alloca(g.insts[src[1]]) == 1:
                         sts.append((s_, gp))
+                elif gp is not None and gp.op == "load" and gp["ptr"].get("k") == "inst" and g.insts[gp["ptr"]["id"]].op == "alloca" and \
+                        _cursor_into(g, gp["ptr"]["id"], 1):
+                    sts.append((s_, gp))           # `*out = ...` with out a running pointer into the output array
         if not sts:
             continue
         n += 1
         # a zero store through the output parameter inside a loop whose continuation test is `index < size`
         padded = False
         for (s_, gp) in sts:
+            if rules.const_of(g, s_["val"]) == 0 and gp.op == "load":
+                # pointer form: the loop continues while `out < dest + size`
+                for h, body in g.loops().items():
+                    if s_.bb.id not in body:
+                        continue
+                    for bb in body:
+                        t = g.bmap[bb].term
+                        if t.op == "br" and "cond" in t.d and (t["t"] not in body or t["f"] not in body):
+                            cnd = g.resolve(t["cond"])
+                            if cnd is None or cnd.op != "icmp" or cnd["pred"] not in ("slt", "ult", "ne"):
+                                continue
+                            la = g.resolve(rules.strip_casts(g, cnd["a"]))
+                            e_ = g.resolve(rules.resolve_local(g, rules.strip_casts(g, cnd["b"])))
+                            if la is not None and la.op == "load" and la["ptr"] == gp["ptr"] and e_ is not None and e_.op == "getelementptr" and \
+                                    not e_["idx"] and e_["off"] == size:
+                                bs = rules.load_source(g, e_["base"])
+                                if bs and bs[0] == "alloca" and g.param_index_of_alloca(g.insts[bs[1]]) == 1:
+                                    padded = True
+                continue
             if rules.const_of(g, s_["val"]) != 0 or not gp["idx"]:
                 continue
             isrc = rules.load_source(g, gp["idx"][-1]["v"])
@@ -357,13 +379,25 @@ def pad_rule(chk, w, split):
 
 
 def _index_plus(f, o):
-    """operand = (load of an integer local) + constant (through casts) -> (alloca id, constant)"""
+    """operand = (load of an integer local) + constant (through casts) -> (alloca id, constant, load id); the scan position may also be a running
+    pointer into the message: `cursor + c` as a pointer, or `(cursor - message) + c` as a position"""
     k = 0
-    for _ in range(8):
+    for _ in range(10):
         if o.get("k") != "inst":
             return None
         i = f.insts[o["id"]]
-        if i.op in ("zext", "sext", "trunc"):
+        if i.op in ("zext", "sext", "trunc", "ptrtoint", "bitcast"):
+            o = i["a"]
+        elif i.op == "getelementptr" and not i["idx"]:
+            k += i["off"]
+            o = i["base"]
+        elif i.op == "sub" and rules.const_of(f, i["b"]) is None:
+            # cursor - message: the position of the cursor
+            b = f.resolve(rules.strip_casts(f, i["b"]))
+            if b is not None and b.op == "ptrtoint":
+                b = f.resolve(rules.strip_casts(f, b["a"]))
+            if b is None or b.op != "load" or b["ptr"].get("k") != "inst" or f.param_index_of_alloca(f.insts[b["ptr"]["id"]]) is None:
+                return None
             o = i["a"]
         elif i.op in ("add", "sub"):
             c = rules.const_of(f, i["b"])
@@ -374,11 +408,40 @@ def _index_plus(f, o):
         elif i.op == "load":
             p_ = i["ptr"]
             if p_.get("k") == "inst" and f.insts[p_["id"]].op == "alloca" and str(f.insts[p_["id"]].get("aty", "")).startswith("i"):
+                a_ = f.insts[p_["id"]]
+                if str(a_.get("aty", "")).endswith("*") and f.param_index_of_alloca(a_) is not None:
+                    return None
                 return p_["id"], k, i.id
             return None
         else:
             return None
     return None
+
+
+def _cursor_into(f, aid, mparam):
+    """the local pointer only ever points into the message parameter: assigned `message + c` or itself + c"""
+    a = f.insts[aid]
+    if f.param_index_of_alloca(a) is not None or rules._escapes(f, a):
+        return False
+    sts = [x for x in f.all_insts() if x.op == "store" and x["ptr"].get("k") == "inst" and x["ptr"]["id"] == aid]
+    from_msg = 0
+    for x in sts:
+        o = x["val"]
+        for _ in range(6):
+            v = f.resolve(rules.strip_casts(f, o))
+            if v is not None and v.op == "getelementptr":
+                o = v["base"]
+                continue
+            break
+        if v is None or v.op != "load" or v["ptr"].get("k") != "inst":
+            return False
+        if v["ptr"]["id"] == aid:
+            continue
+        if f.param_index_of_alloca(f.insts[v["ptr"]["id"]]) == mparam:
+            from_msg += 1
+            continue
+        return False
+    return from_msg >= 1
 
 
 def _msg_elem(f, o, mparam):
@@ -394,6 +457,10 @@ def _msg_elem(f, o, mparam):
     if i.op != "load":
         return None
     g = f.resolve(i["ptr"])
+    # `cursor[c]` / `*cursor` with cursor a running pointer into the message
+    cp = _index_plus(f, i["ptr"]) if i["ptr"].get("k") == "inst" else None
+    if cp is not None and str(f.insts[cp[0]].get("aty", "")).endswith("*") and _cursor_into(f, cp[0], mparam):
+        return cp
     if g is None or g.op != "getelementptr" or not g["idx"]:
         return None
     src = rules.load_source(f, g["base"])
